@@ -236,58 +236,36 @@ def r3(ctx):
     if not ok:
         ctx.violation("buffer/writers", ctx.where(CHECK_FILE), "the aggregation buffer must be filled at exactly one place, in check_file; found %s" % pushes)
         return
-    hir = ctx.anchor_hir(CHECK_FILE)
-    top = hir["stmts"] + ([hir["expr"]] if "expr" in hir else [])
-    i_filter = [i for i, st in enumerate(top) if calls_to(st, "searcher::Searcher::conforms")]
-    i_push = [i for i, st in enumerate(top) if any(c["k"] == "MCall" and c["m"] == "push" and "raw_output_buffer" in render(c["recv"]) for c in walk_exprs(st))]
-    ok = len(i_filter) == 1 and len(i_push) == 1 and i_filter[0] < i_push[0]
-    p = [c for c in walk_exprs(hir) if c["k"] == "MCall" and c["m"] == "push" and "raw_output_buffer" in render(c["recv"])]
-    in_loop = any(t[0] == "loop" for t in guards_of(hir, p[0])) if p else True
-    g = [render(t[1]) for t in guards_of(hir, p[0]) if t[0] == "if" and t[2]] if p else []
-    ok = ok and not in_loop and any("has_aggregate_column" in x for x in g)
-    ctx.obligation(ok)
-    if not ok:
-        ctx.violation("buffer/after-filter", ctx.where(CHECK_FILE), "a row must enter the aggregation buffer exactly once, after the WHERE filter accepted it")
-    # the aggregate reads that buffer (or the group's partition)
-    gh = ctx.anchor_hir(GFV)
-    cs = calls_to(gh, AGG)
-    ok = len(cs) == 1
-    if ok:
-        a1 = render(Locals(gh).chase(peel(cs[0]["args"][1], methods=False)))
-        ok = "raw_output_buffer" in a1 and "buffer_data" in a1 and "unwrap_or" in a1
-    ctx.obligation(ok)
-    if not ok:
-        ctx.violation("buffer/reader", ctx.where(GFV), "get_function_value must aggregate over the group's rows or, without grouping, the whole buffer")
-    # key: the inner expression's text, and check_file stores every selected expression under that text
-    ok = len(cs) == 1 and render(Locals(gh).chase(cs[0]["args"][2])).startswith("left_expr")
-    ctx.obligation(ok)
-    if not ok:
-        ctx.violation("buffer/key", ctx.where(GFV), "the aggregated column must be looked up by the text of the aggregate's argument")
-    # the argument of the aggregate is materialised into the row before the row is buffered: in the aggregate branch the
-    # argument expression is evaluated against the row's map, and the evaluator stores function / field / arithmetic
-    # values in that map under the expression's text (the key the aggregate reads)
-    ok = False
-    if len(cs) == 1:
-        ev = [c for c in walk_exprs(gh) if c["k"] == "MCall" and c["m"] == "get_column_expr_value" and len(c["args"]) == 5
-              and render(c["args"][2]) == "file_map" and render(c["args"][4]).startswith("left_expr")]
-        ga = guards_of(gh, cs[0])
-        ok = any([guard_text(g) for g in guards_of(gh, e)] == [guard_text(g) for g in ga] and _before(gh, e, cs[0]) for e in ev)
-    ctx.obligation(ok)
-    if not ok:
-        ctx.violation("buffer/argument-materialised", ctx.where(GFV),
-                      "the argument of an aggregate (e.g. LENGTH(name) in MIN(LENGTH(name))) must be evaluated into the entry's row "
-                      "before the row is buffered; otherwise no buffered row has a value under the aggregate's key")
-    ch = ctx.anchor_hir(GCEV)
-    ins = [c for c in walk_exprs(ch) if c["k"] == "MCall" and c["m"] == "insert" and render(c["recv"]) == "file_map"]
-    keys = {}
-    for c in ins:
-        g = " & ".join(guard_text(x) for x in guards_of(ch, c) if x[0] not in ("exit", "exitmatch"))
-        kind = "function" if "column_expr.function" in g else "field" if "column_expr.field" in g else "arithmetic" if "arithmetic_op" in g else "?"
-        keys[kind] = render(Locals(ch).chase(c["args"][0]))
-    ok = all(keys.get(k, "").startswith("column_expr.to_string()") for k in ("function", "field", "arithmetic"))
-    ctx.obligation(ok)
-    if not ok:
-        ctx.violation("buffer/write-through", ctx.where(GCEV), "function, column and arithmetic values must be stored in the row under the expression's text; found %s" % keys)
+    # one row per accepted entry, after the WHERE filter, only when the query aggregates: decided by the evaluation of
+    # check_file on its scenario table (X-PIPELINE, rule list below)
+    # the aggregate reads that buffer (or the group's partition), keyed by the text of its argument, and the argument is
+    # evaluated into the entry's row first: get_function_value evaluated (rules/gcev.py) on MIN(ARG) with and without a partition
+    import gcev
+    import interp
+    try:
+        fr = gcev.FunRun(ctx)
+        part = [interp.HMap({"<ARG>": "2"})]
+        for partition in (None, part):
+            got, ev, memo = fr.run(aggregate=True, partition=partition, extra=())
+            ag = [e for e in ev if e[0] == "aggregate"]
+            ok = len(ag) == 1 and ag[0][1] == ("partition" if partition is not None else "whole")
+            ctx.obligation(ok)
+            if not ok:
+                ctx.violation("buffer/reader", ctx.where(GFV), "get_function_value must aggregate over the group's rows or, without grouping, the whole buffer (%s)" % ag)
+            ok = len(ag) == 1 and ag[0][2] == "<ARG>"
+            ctx.obligation(ok)
+            if not ok:
+                ctx.violation("buffer/key", ctx.where(GFV), "the aggregated column must be looked up by the text of the aggregate's argument (%s)" % ag)
+            ok = ("eval", "ARG", True) in ev and memo.get("<ARG>") == "val:ARG" and (not ag or ev.index(("eval", "ARG", True)) < ev.index(ag[0]))
+            ctx.obligation(ok)
+            if not ok:
+                ctx.violation("buffer/argument-materialised", ctx.where(GFV),
+                              "the argument of an aggregate (e.g. LENGTH(name) in MIN(LENGTH(name))) must be evaluated into the entry's row "
+                              "before the row is buffered; otherwise no buffered row has a value under the aggregate's key")
+    except interp.Undecided as e:
+        ctx.obligation(False)
+        ctx.violation("buffer/reader", ctx.where(GFV), "cannot evaluate get_function_value on an aggregate: %s" % e)
+    # function, column and arithmetic values are stored in the row under the expression's text: C15-R5 (shared, rule list below)
     ctx.covered("aggregation buffer discipline (single writer after the filter; reader; key; argument materialised; write-through)", 6,
                 distinct_keys=["writer", "order", "reader", "key", "argument", "write-through"])
 
@@ -309,6 +287,7 @@ RULES = [
     ("C07-R3", "the WHERE filter is applied before aggregation; one buffer row per accepted entry", r3),
     ("X-BUFFER", "buffering predicates (ordered or aggregate) and recursive expression predicates [shared]", lambda ctx: __import__("extra").buffering_predicates(ctx)),
     ("C06-R2", "no early stop while rows are buffered for aggregation [shared with C06]", lambda ctx: __import__("c06").r2(ctx)),
+    ("C15-R5", "the expression evaluator stores every computed value in the row under the expression's text [shared with C15]", lambda ctx: __import__("c15").r5(ctx)),
     ("C07-R6", "MIN / MAX range over the rows that have a value (empty and absent cells take no part)", lambda ctx: r6(ctx)),
     ("X-PIPELINE", "the per-entry pipeline of check_file evaluated on its scenario table (filter, count, row, buffer key, separator, closed output) [shared]", lambda ctx: __import__("cfile").pipeline(ctx)),
 ]
